@@ -32,7 +32,7 @@ def add_family(prop, tier, seed, verdict, cov, mc, tag):
         mc.append(core.tlc_mc('MC_Admission', 'MC_Admission_l1.cfg', workers=8, timeout=3000))
     stims = schedules(seed, tier, mc)
     ev, path = simple.run_lab('admission', stims, tag, 'admission')
-    res = core.tlc_trace('Trace_Admission', path, name=f'{prop}_admission')
+    res = core.tlc_trace('Trace_Admission', path, name=f'{prop}_admission', own=lambda c: c.startswith(prop + '.') or c in ('NoPanic', 'NoHang') or c in simple.HARNESS_CLAUSES)
     hb = [b for b in res['bad'] if set(b['clauses']) & simple.HARNESS_CLAUSES]
     if hb:
         raise ToolError(f'admission: harness clause failed {hb[0]}')
